@@ -226,7 +226,7 @@ pub struct C11 {
     stats: RefCell<Stats>,
 }
 
-const NT_FEATURES: [&str; 14] = [
+const NT_FEATURES: [&str; 15] = [
     "fold",
     "nested-fold",
     "fold-in-opt",
@@ -241,6 +241,7 @@ const NT_FEATURES: [&str; 14] = [
     "count-tag-import",
     "dup-import",
     "var-reused",
+    "var-reused-count-and-prop",
 ];
 
 impl Prop for C11 {
@@ -257,6 +258,9 @@ impl Prop for C11 {
         let mut stats = Stats::default();
         let default_knobs = QueryKnobs::default();
         let wide_knobs = QueryKnobs::wide();
+        // every third tree: fold-count filters are frequent and share their variables with property
+        // filters (added after seeded change C12-5: the narrowing of a variable's type by a fold-count use)
+        let cross_knobs = QueryKnobs { p_cross_hint_reuse: (2, 3), p_count_filter: (2, 3), p_filter: (3, 4), ..QueryKnobs::wide() };
         for _ in 0..n_schemas {
             let schema = match guarded(|| gen_schema(rng, &SchemaKnobs::default())) {
                 Ok(s) => s,
@@ -269,7 +273,7 @@ impl Prop for C11 {
             let schema_sexp = schema.to_sexp();
             let real = schema.to_real();
             for k in 0..n_queries {
-                let knobs = if k % 2 == 0 { &default_knobs } else { &wide_knobs };
+                let knobs = if k % 3 == 2 { &cross_knobs } else if k % 2 == 0 { &default_knobs } else { &wide_knobs };
                 let gq = gen_query(rng, &schema, knobs);
                 stats.generated += 1;
                 let tree = gq.query.to_sexp();
